@@ -2,7 +2,7 @@
 C12 — accepted rules are self-consistent: variables, references and rewriters resolve.
 
 Over the loader model (`Model/Loader.lean`, `Model/CheckVar.lean`; the code after FIX_C11_1..7 /
-FIX_C12_1..2) and the template model of C07/C20 (`Model/Template.lean`):
+FIX_C12_1..3) and the template model of C07/C20 (`Model/Template.lean`):
 
   * `accept_vars_defined`   a document the loader accepts is `Consistent`: every fix variable,
                             transformation source and constraint key is defined (by a pattern of the
@@ -50,6 +50,21 @@ def DefinedBy (doc : SDoc) (v : Name) : Prop :=
 
 /-- ... or produced by a transformation -/
 def Available (doc : SDoc) (v : Name) : Prop := DefinedBy doc v ∨ v ∈ transformKeys doc.core
+
+/-- **the variables a match of the rule binds to nodes** (`RuleCore::captured_vars`): captured by a
+pattern of the rule, of one of its utilities or of one of its constraints.  These — and NOT the keys
+of `transform`, which name texts, not nodes — are the variables of the enclosing rule a rewriter's
+fix may use (FIX_C12_3; the released code let a rewriter's fix use `Available` variables and
+replaced a transformation key by nothing). -/
+def Captured (doc : SDoc) (v : Name) : Prop := DefinedBy doc v
+
+theorem captured_iff_definedBy (doc : SDoc) (v : Name) : Captured doc v ↔ DefinedBy doc v := Iff.rfl
+
+/-- a captured variable is available; the converse fails exactly for the transformation keys -/
+theorem Captured.available {doc : SDoc} {v : Name} (h : Captured doc v) : Available doc v := Or.inl h
+
+theorem available_iff_captured_or_key (doc : SDoc) (v : Name) :
+    Available doc v ↔ Captured doc v ∨ v ∈ transformKeys doc.core := Iff.rfl
 
 /-- `id` resolves: a utility of the rule or a registered global rule -/
 def Resolves (doc : SDoc) (id : Name) : Prop :=
@@ -440,7 +455,7 @@ theorem accept_vars_defined (doc : SDoc) (L : Loaded) (h : load doc = .ok L) : C
       | some rws =>
         rw [hrws] at hrw
         simp only at hrw
-        cases hreg : registerRewriters Fixes.all doc.expando doc.globals info.definedVars rws reg [] with
+        cases hreg : registerRewriters Fixes.all doc.expando doc.globals (rewriterUpper Fixes.all info) rws reg [] with
         | err e => rw [hreg] at hrw; cases hrw
         | panic s => rw [hreg] at hrw; cases hrw
         | ok p =>
